@@ -9,6 +9,9 @@ Proof.
   unfold as_nat, zn. destruct (Z.leb_spec 0 (Z.of_nat n)); [|lia]. now rewrite Nat2Z.id.
 Qed.
 
+Local Arguments as_nat : simpl never.
+Local Arguments zn : simpl never.
+
 Lemma flat_edges_length g : length (flat_edges g) = 2 * length (edges g).
 Proof.
   unfold flat_edges. induction (edges g) as [|[u v] r IH]; simpl; [reflexivity|]. rewrite IH. lia.
